@@ -298,10 +298,13 @@ class Compiler:
             "set_where": None
         }
 
-        code = self.compile_file(file, link_base["promise"], link_base)
-
-        if not link_base["promise"].settled:
-            link_base["promise"].settle(addr)
+        try:
+            code = self.compile_file(file, link_base["promise"], link_base)
+        finally:
+            # Settle the base even if compiling the file was aborted by an error: symbols it has
+            # already defined refer to this promise and are all resolved at the end
+            if not link_base["promise"].settled:
+                link_base["promise"].settle(addr)
 
         return code
 
